@@ -11,12 +11,15 @@ import (
 	"sort"
 	"strings"
 	"testing/synctest"
+	"time"
 
 	"github.com/ipfs/go-cid"
 	cidlink "github.com/ipld/go-ipld-prime/linking/cid"
 	"github.com/ipni/go-libipni/announce"
 	"github.com/ipni/go-libipni/dagsync"
 	"github.com/ipni/go-libipni/verifshim/vsched"
+	"github.com/libp2p/go-libp2p"
+	pubsub "github.com/libp2p/go-libp2p-pubsub"
 	"github.com/libp2p/go-libp2p/core/peer"
 
 	"verifharness/fixture"
@@ -36,6 +39,9 @@ type World struct {
 	// StallBlock: block requests (publisher index, chain index) that are never
 	// answered: the handler waits until the request is cancelled.
 	StallBlock map[string]bool
+	// Topic and StopPubsub are set with Options.Pubsub.
+	Topic      *pubsub.Topic
+	StopPubsub func()
 }
 
 // Options for New.
@@ -52,6 +58,11 @@ type Options struct {
 	// about notifications and shutdown do not care about.
 	Prestore  bool
 	KeyOffset int
+	// Pubsub: the subscriber is created with a libp2p host (no transports) and
+	// its announce receiver listens on a real gossipsub topic of that host
+	// (World.Topic), so that announcements can arrive through the receiver's
+	// pubsub watcher goroutine. Implies Announce.
+	Pubsub bool
 }
 
 // New builds the world in free-running mode: publishers with chains, the
@@ -66,7 +77,32 @@ func New(e *sched.Exec, o Options) *World {
 		w.Chains = append(w.Chains, ch)
 	}
 	opts := o.SubOpts
-	if o.Announce {
+	if o.Pubsub {
+		self := fixture.Key("ed25519", 90+o.KeyOffset)
+		h, err := libp2p.New(libp2p.NoListenAddrs, libp2p.Identity(self.Priv))
+		if err != nil {
+			panic(err)
+		}
+		psCtx, psCancel := context.WithCancel(context.Background())
+		ps, err := pubsub.NewGossipSub(psCtx, h)
+		if err != nil {
+			panic(err)
+		}
+		topic, err := ps.Join("/indexer/ingest/schedfx")
+		if err != nil {
+			panic(err)
+		}
+		w.Host, w.Topic = h, topic
+		w.StopPubsub = func() {
+			topic.Close()
+			psCancel()
+			h.Close()
+			// gossipsub's background loops notice their cancelled context only
+			// when they wake: let virtual time pass
+			time.Sleep(30 * time.Minute)
+		}
+		opts = append(opts, dagsync.RecvAnnounce("", announce.WithTopic(topic), announce.WithAllowPeer(func(peer.ID) bool { return true })))
+	} else if o.Announce {
 		opts = append(opts, dagsync.RecvAnnounce("", announce.WithAllowPeer(func(peer.ID) bool { return true })))
 	}
 	w.NewSubscriber(opts...)
@@ -150,6 +186,9 @@ func (w *World) CloseGuarded() {
 		})
 	}
 	w.CloseRest()
+	if w.StopPubsub != nil {
+		e.Guarded("shutting down pubsub and the host", w.StopPubsub)
+	}
 }
 
 func reqWhat(ch *syncfx.Chain, rq *syncfx.Req) string {
